@@ -196,6 +196,11 @@ class Fixture(object):
             return bool(self.slot.__get__(res))
         return False
 
+    def sleeps_past_publication(self, name, r):
+        """is the result that thread `name` (blocked now) waits for already published?  Without nesting that is the result of its
+        current request r."""
+        return self.is_ready(r)
+
     def owner(self, lock):
         o = lock.owner
         return o.name if isinstance(o, sim.SimThread) else ("none" if o is None else "other")
@@ -329,7 +334,7 @@ def run_impl(reqs, bg, chooser, lines=False, max_steps=6000, max_bg_loops=12, eo
                     if t.done:
                         continue
                     r = next((x for x in fx.reqs[name] if x not in fx.outcome), None)
-                    if r is not None and fx.is_ready(r) and (name, r) not in seen_stall:
+                    if r is not None and fx.sleeps_past_publication(name, r) and (name, r) not in seen_stall:
                         seen_stall.add((name, r))
                         woke = wake_step.get(name, -1) > pub_step.get(r, 10 ** 9)
                         holder = fx.conn._recvlock.owner if fx.white else None
@@ -396,6 +401,13 @@ def run_impl(reqs, bg, chooser, lines=False, max_steps=6000, max_bg_loops=12, eo
                 ev["recvlock"] = fx.owner(fx.conn._recvlock)
                 ev["condlock"] = fx.owner(fx.conn._recv_event._lock)
             trace.append(ev)
+        if getattr(fx, "pool", None):
+            # serving-only threads may be in the middle of a dispatch when the last client is done: they go on until they sleep
+            for _ in range(3000):
+                mine = [c for c in thread_choices(s) if c[0] in fx.pool.values()]
+                if not mine:
+                    break
+                s.step(*mine[0])
         for extra in getattr(fx, "drain_threads", ()):
             # threads of the program that have work left when the clients are done (serve_threaded() joining its workers and
             # closing the connection on its way out): let them, and whoever they wait for, finish
